@@ -134,7 +134,7 @@ def class_witnesses(res, prop, judge):
 def run_prop(res, prop, extra_obligations=1):
     sp = SPEC[prop]
     semi = prop in ("C01", "C02")
-    kernels = {"C01": ["semicolon_rule", "double_minus_guard"], "C02": ["semicolon_rule", "collapse_rule"], "C06": ["double_minus_guard", "condition_parentheses"], "C03": ["collapse_rule", "if_guard", "condition_parentheses"], "C10": ["whitespace_and_call_options"], "C11": ["quote_choice", "whitespace_and_call_options"]}.get(prop, [])
+    kernels = {"C01": ["semicolon_rule", "double_minus_guard", "brackets_string"], "C02": ["semicolon_rule", "collapse_rule"], "C06": ["double_minus_guard", "condition_parentheses"], "C03": ["collapse_rule", "if_guard", "condition_parentheses"], "C10": ["whitespace_and_call_options"], "C11": ["quote_choice", "whitespace_and_call_options"]}.get(prop, [])
     if prop in L0_PROPS: extra_obligations += 1     # the L0 tie
     t_ok, t_log = True, ""
     for kname in kernels:               # Tie 1: each kernel the theorems speak about is regenerated from /repo's source
